@@ -1119,30 +1119,25 @@ static void sigpipe_handler (int sig) {
 #endif
 
 /**
- * @brief Add console input line to interactive buffer.
+ * @brief Add console input to interactive buffer.
  * 
  * Console input uses virtual terminal (VT) mode, not TELNET protocol.
  * Lines are already read by the console worker thread. This function
  * converts CR/LF to null terminators and appends to the text buffer.
+ * The caller has made sure that there is room.
  * 
  * @param ip Interactive object (must be console user)
- * @param line_buffer Line data from console worker (null-terminated)
- * @param line_length Length including null terminator
+ * @param from Input data from console worker
+ * @param len Number of bytes
  */
-static void add_console_line (interactive_t *ip, const char *line_buffer, size_t line_length) {
-  if (!ip || (ip->iflags & (NET_DEAD | CLOSING)))
-    return;
-
-  int len = (int)(line_length > 0 ? line_length - 1 : 0); /* Exclude null terminator */
+static void add_console_line (interactive_t *ip, const char *from, int len) {
   if (len <= 0 || ip->text_end + len >= MAX_TEXT)
     return;
 
   /* Convert newlines to null terminators for command parsing */
-  const char* from = line_buffer;
   char* to = ip->text + ip->text_end;
-  int bytes = len;
   
-  while (bytes-- > 0)
+  while (len-- > 0)
     {
       if (*from == '\n' || *from == '\r')
         *to++ = '\0';
@@ -1159,6 +1154,80 @@ static void add_console_line (interactive_t *ip, const char *line_buffer, size_t
     {
       opt_trace(TT_COMM|1, "Console command available in buffer\n");
       ip->iflags |= CMD_IN_BUF;
+    }
+}
+
+/* The message of the console worker that is being moved to the console user's buffer */
+static char console_chunk[CONSOLE_MAX_LINE];
+static size_t console_chunk_len = 0;    /* without the terminator */
+static size_t console_chunk_pos = 0;    /* what add_console_line() has got already */
+static int console_input_ended = 0;     /* the worker has reported the end of the input */
+
+/**
+ * @brief Move console input from the worker's queue to the console user's buffer.
+ *
+ * A message of the worker is what one read() returned: up to CONSOLE_MAX_LINE - 1 bytes,
+ * any number of lines. The console user's buffer holds MAX_TEXT bytes and is emptied by one
+ * command per backend cycle. So the input is moved as far as there is room, and the rest
+ * waits here and in the queue (whose overflow policy is the only thing that drops input)
+ * until commands have been executed. Called when the worker posts a completion, and before
+ * a command is taken out of the buffer.
+ *
+ * When everything has been moved and executed and the worker has reported the end of the
+ * input, the console user is disconnected, as a user whose connection was closed. For
+ * a pipe or a file remove_interactive() shuts the driver down then.
+ */
+static void feed_console_user (void) {
+  interactive_t *ip = all_users ? all_users[0] : NULL;
+
+  if (!g_console_queue || !ip || ip->connection_type != CONSOLE_USER ||
+      (ip->iflags & (NET_DEAD | CLOSING)))
+    return;
+
+  for (;;)
+    {
+      int room, len;
+
+      if (console_chunk_pos >= console_chunk_len)
+        {
+          size_t size = 0;
+
+          if (!async_queue_dequeue (g_console_queue, console_chunk, sizeof (console_chunk), &size))
+            break;
+          console_chunk_len = size > 0 ? size - 1 : 0;  /* always null-terminated */
+          console_chunk_pos = 0;
+          continue;
+        }
+
+      /* shift out processed text from the buffer */
+      if (ip->text_start > 0 && ip->text_end > MAX_TEXT / 2)
+        {
+          memmove (ip->text, ip->text + ip->text_start, ip->text_end - ip->text_start + 1);
+          ip->text_end -= ip->text_start;
+          ip->text_start = 0;
+        }
+      room = MAX_TEXT - 1 - (int)ip->text_end;
+      if (room <= 0)
+        {
+          if (cmd_in_buf (ip))
+            return; /* come back when commands have been executed */
+          /* almost 2k of data without a newline: discard it, as for a socket */
+          ip->text_start = ip->text_end = 0;
+          continue;
+        }
+      len = (int)(console_chunk_len - console_chunk_pos);
+      if (len > room)
+        len = room;
+      add_console_line (ip, console_chunk + console_chunk_pos, len);
+      console_chunk_pos += len;
+    }
+
+  if (console_input_ended && !(ip->iflags & CMD_IN_BUF))
+    {
+      console_input_ended = 0;
+      opt_trace (TT_COMM|1, "End of console input\n");
+      ip->iflags |= NET_DEAD;
+      remove_interactive (ip->ob, 0);
     }
 }
 
@@ -1248,17 +1317,13 @@ void process_io () {
                   console_ip = all_users[0];
                 }
               
-              /* Drain all pending lines from queue (always null-terminated) */
+              /* a completion without data is the end of the input */
+              if (evt->bytes_transferred == 0)
+                console_input_ended = 1;
+
+              /* Move the pending lines to the console user, as far as there is room */
               if (console_ip)
-                {
-                  char line_buffer[CONSOLE_MAX_LINE];
-                  size_t line_length;
-                  
-                  while (async_queue_dequeue(g_console_queue, line_buffer, sizeof(line_buffer), &line_length))
-                    {
-                      add_console_line(console_ip, line_buffer, line_length);
-                    }
-                }
+                feed_console_user ();
             }
         }
       else if (is_interactive_user (evt->context))
@@ -1726,6 +1791,9 @@ int process_user_command () {
    * or a call_out: it gets the whole evaluation budget, not what the commands of
    * the users served before it in this backend cycle have left over. */
   eval_cost = CONFIG_INT (__MAX_EVAL_COST__);
+
+  /* console input that is waiting for room in the console user's buffer */
+  feed_console_user ();
 
   /* WARNING: get_user_command() sets command_giver */
   if ((user_command = get_user_command ()))
